@@ -3,6 +3,7 @@ import OsuModel.TimeSeries
 import Mathlib.Tactic.Ring
 import Mathlib.Tactic.Linarith
 import Mathlib.Tactic.FieldSimp
+import OsuProofs.Parseval
 
 /-!
 # C16 — synthetic time series carry the spectrum's variance and are reproducible
@@ -14,7 +15,7 @@ modelled as an input).
 
 namespace Osu.TS
 
-open Real
+open Real Finset
 
 /-- `length_eq`: the series has exactly `n = nfft` samples — as many as the time axis. -/
 theorem length_eq (a : List (ℝ × ℝ)) (fs : ℝ) (n : ℕ) :
@@ -101,5 +102,67 @@ theorem same_phases_same_series (area e : List ℝ) (ph1 ph2 : List ℝ) (f : Li
   rw [h]
 
 example : nfftOf 101 = 100 ∧ nfftOf 8 = 8 := by decide
+
+
+
+theorem lsum_range_map (f : ℕ → ℝ) (m : ℕ) : lsum ((List.range m).map f) = ∑ j ∈ range m, f j := by
+  induction m with
+  | zero => simp [lsum]
+  | succ m ih =>
+    rw [List.range_succ, List.map_append, Finset.sum_range_succ]
+    have happ : ∀ l₁ l₂ : List ℝ, lsum (l₁ ++ l₂) = lsum l₁ + lsum l₂ := by
+      intro l₁ l₂
+      induction l₁ with
+      | nil => simp [lsum]
+      | cons a l ih' => simp only [List.cons_append, lsum, ih']; ring
+    rw [happ, ih]; simp [lsum]
+
+/-- sample `t` of the model's series is the real inverse DFT written with harmonics `1 .. n/2 - 1` -/
+theorem series_eq_signal (a : List (ℝ × ℝ)) (n t : ℕ) (hn : 0 < n) :
+    (n : ℝ) * irfftAt a n t =
+      Osu.Parseval.signal n (n / 2 - 1) (a.getD 0 (0, 0)).1 (fun k => (a.getD k (0, 0)).1) (fun k => (a.getD k (0, 0)).2) t := by
+  have hn' : (n : ℝ) ≠ 0 := by exact_mod_cast hn.ne'
+  simp only [irfftAt, Osu.Parseval.signal, Osu.Parseval.harm, lsum_range_map, two, Transc.pi, Transc.cos, Transc.sin]
+  rw [mul_div_cancel₀ _ hn']
+  congr 2
+  apply Finset.sum_congr rfl
+  intro k _
+  push_cast
+  have : (2 : ℝ) * π * (((k : ℝ) + 1) * (t : ℝ)) / (n : ℝ) = 2 * π * ((k : ℝ) + 1) * (t : ℝ) / (n : ℝ) := by ring
+  rw [this]
+
+/-- **Parseval for the synthetic series**: the sample variance (`numpy.var`: mean square minus
+squared mean) of the `n` samples is twice the summed squared magnitude of the Fourier amplitudes
+`1 .. n/2 - 1`; the zero-frequency amplitude only sets the mean. -/
+theorem series_variance (a : List (ℝ × ℝ)) (n : ℕ) (hn : 0 < n) :
+    (∑ t ∈ range n, ((n : ℝ) * irfftAt a n t) ^ 2) / n - ((∑ t ∈ range n, (n : ℝ) * irfftAt a n t) / n) ^ 2 =
+      2 * ∑ k ∈ range (n / 2 - 1), ((a.getD (k + 1) (0, 0)).1 ^ 2 + (a.getD (k + 1) (0, 0)).2 ^ 2) := by
+  simp only [series_eq_signal a n _ hn]
+  exact Osu.Parseval.signal_variance n (n / 2 - 1) _ _ _ (by omega)
+
+/-- the sample mean is the real part of the zero-frequency amplitude -/
+theorem series_mean (a : List (ℝ × ℝ)) (n : ℕ) (hn : 0 < n) :
+    (∑ t ∈ range n, (n : ℝ) * irfftAt a n t) / n = (a.getD 0 (0, 0)).1 := by
+  simp only [series_eq_signal a n _ hn]
+  exact Osu.Parseval.signal_mean n (n / 2 - 1) _ _ _ (by omega)
+
+
+/-- … so for a 1D spectrum (one amplitude `sqrt(area·E/2)·e^{iφ}·factor` per FFT bin) the sample
+variance is `Σ_{k ≥ 1} area_k E_k |factor_k|²`: the spectral variance of the resampled spectrum
+weighted by the component's transfer function, whatever the random phases -/
+theorem series_variance_spectrum (area e phase : ℕ → ℝ) (f : ℕ → ℝ × ℝ) (n : ℕ) (hn : 0 < n)
+    (hpos : ∀ k, 0 ≤ area k * e k) :
+    let a := (List.range (n / 2)).map fun k => amplitude (area k) (e k) (phase k) (f k)
+    (∑ t ∈ range n, ((n : ℝ) * irfftAt a n t) ^ 2) / n - ((∑ t ∈ range n, (n : ℝ) * irfftAt a n t) / n) ^ 2 =
+      ∑ k ∈ range (n / 2 - 1), area (k + 1) * e (k + 1) * ((f (k + 1)).1 ^ 2 + (f (k + 1)).2 ^ 2) := by
+  intro a
+  rw [series_variance a n hn, Finset.mul_sum]
+  apply Finset.sum_congr rfl
+  intro k hk
+  have hk' : k + 1 < n / 2 := by have := Finset.mem_range.1 hk; omega
+  have hget : a.getD (k + 1) (0, 0) = amplitude (area (k + 1)) (e (k + 1)) (phase (k + 1)) (f (k + 1)) := by
+    simp [a, List.getD, hk']
+  rw [hget, amplitude_normSq _ _ _ _ (hpos (k + 1))]
+  ring
 
 end Osu.TS
